@@ -75,7 +75,10 @@ Whys(e) ==
              got == {e.vals[i].v : i \in DOMAIN e.vals}
              ws == {e.vals[i].w : i \in DOMAIN e.vals}
              cnt == FromInt(Cardinality(want))
-         IN <<IF e.complete = 1 THEN "ok" ELSE "H:preset-tree-not-complete",
+         IN IF e.misaligned = 1
+            THEN <<"S:preset-reads-cannot-be-attributed-to-its-draws-no-exact-distribution",
+                   IF got \subseteq want THEN "ok" ELSE "P:C16:separator-preset-does-not-yield-exactly-what-its-name-says">> ELSE
+            <<IF e.complete = 1 THEN "ok" ELSE "H:preset-tree-not-complete",
               IF got = want /\ Len(e.vals) = Cardinality(want) THEN "ok" ELSE "P:C16:separator-preset-does-not-yield-exactly-what-its-name-says",
               IF Cardinality(ws) = 1 THEN "ok" ELSE "P:C16:separator-preset-is-not-uniform",
               IF \A i \in DOMAIN e.vals : Len(e.vals[i].ents) = 1 /\ EntropyIsLog2(e.vals[i].ents[1], cnt, 2) THEN "ok"
